@@ -465,6 +465,109 @@ Proof.
           repeat step; finish_good.
 Qed.
 
+(* ------------------------------------------------------------------------------------------------ *)
+(* which leaf events apply                                                                          *)
+(* ------------------------------------------------------------------------------------------------ *)
+
+Definition pend_id (p : pend) : nat := match p with PLeaf id => id | PSched id _ => id | PHeld id => id end.
+Definition pending_ids (e : sexpr) (st : ost) : list nat := map pend_id (pending e st).
+
+(* a leaf event applies iff something with that id is pending (a running leaf, a queued item, a held completion) *)
+Definition hit_ok (e : sexpr) (st : ost) (id : nat) (r : res * bool) : Prop :=
+  snd r = true <-> In id (pending_ids e st).
+
+Lemma pids_done : forall e st, done_st e st -> pending_ids e st = [].
+Proof. intros. unfold pending_ids. rewrite pending_done by assumption. reflexivity. Qed.
+
+Lemma pids_fin : forall e, pending_ids e OFin = [].
+Proof. intros. apply pids_done, done_fin. Qed.
+
+Lemma pids_un : forall k s ns sc x, pending_ids (Un k s) (ONode ns sc x) = pending_ids s sc.
+Proof. reflexivity. Qed.
+
+Lemma pids_bin : forall k a b ns sa sb,
+  pending_ids (Bin k a b) (ONode ns sa sb) = pending_ids a sa ++ pending_ids b sb.
+Proof. intros. unfold pending_ids. simpl. apply map_app. Qed.
+
+Ltac hstep :=
+  simpl; rw_flags; simpl;
+  lazymatch goal with
+  | |- hit_ok _ _ _ ?t => let x := head_scrut t in step_on x
+  end.
+
+Ltac finish_hit :=
+  simpl; rw_flags; simpl;
+  unfold hit_ok in *; simpl in *; rewrite ?pids_un, ?pids_bin, ?pids_fin in *;
+  repeat match goal with
+         | D : done_st ?a ?sa |- _ => rewrite (pids_done a sa D) in *
+         end;
+  rewrite ?in_app_iff; simpl;
+  intuition (try discriminate; try congruence).
+
+Lemma hit_iff : forall e st id o cx, wf2 e st -> hit_ok e st id (leafev e st id o cx).
+Proof.
+  induction e as [v|x| |n|id|id|id c|id lvl| |k s IHs|k a IHa b IHb]; intros st id0 o cx H; simpl in H;
+    try contradiction.
+  - destruct st as [|[|] sn| | |]; simpl in *; try contradiction.
+    unfold hit_ok. destruct (Nat.eqb id0 id) eqn:E; simpl.
+    + apply Nat.eqb_eq in E. subst. intuition.
+    + apply Nat.eqb_neq in E. split; [discriminate|]. intros [->|[]]. congruence.
+  - destruct st as [|[|] [|]| | |]; simpl in *; try contradiction.
+    unfold hit_ok. destruct (Nat.eqb id0 id) eqn:E; simpl.
+    + apply Nat.eqb_eq in E. subst. intuition.
+    + apply Nat.eqb_neq in E. split; [discriminate|]. intros [->|[]]. congruence.
+  - destruct st as [|[|] sn| | |]; simpl in *; try contradiction.
+    unfold hit_ok. destruct (Nat.eqb id0 id) eqn:E; simpl.
+    + apply Nat.eqb_eq in E. subst. intuition.
+    + apply Nat.eqb_neq in E. split; [discriminate|]. intros [->|[]]. congruence.
+  - destruct st as [|[|] sn| | |]; simpl in *; try contradiction;
+      unfold hit_ok; destruct (Nat.eqb id0 id) eqn:E; simpl;
+      try (apply Nat.eqb_eq in E; subst; destruct o; simpl; intuition);
+      apply Nat.eqb_neq in E; (split; [discriminate|]); intros [->|[]]; congruence.
+  - destruct st as [| |ns sc sx| |]; try contradiction. destruct sx; try contradiction.
+    pose proof (IHs sc id0 o cx H) as Fs.
+    pose proof (proj2 (proj2 (spec_all s))) as IH3. pose proof (proj1 (proj2 (spec_all s))) as IH2.
+    pose proof (proj1 (spec_all s)) as IH1.
+    repeat hstep; finish_hit.
+  - destruct st as [| |ns sa sb| |]; try contradiction.
+    pose proof (proj2 (proj2 (spec_all a))) as IHa3. pose proof (proj1 (proj2 (spec_all a))) as IHa2.
+    pose proof (proj1 (spec_all a)) as IHa1.
+    pose proof (proj2 (proj2 (spec_all b))) as IHb3. pose proof (proj1 (proj2 (spec_all b))) as IHb2.
+    pose proof (proj1 (spec_all b)) as IHb1.
+    destruct (is_seq k) eqn:Hk.
+    + destruct (ph ns) eqn:P0; try contradiction; destruct H as (Ha & Hb); subst.
+      * pose proof (IHa sa id0 o cx Ha) as Fa. repeat hstep; finish_hit.
+      * pose proof (IHb sb id0 o cx Hb) as Fb. repeat hstep; finish_hit.
+    + destruct H as (Ha & Hb & Hab).
+      destruct (adone ns) eqn:A0; destruct (bdone ns) eqn:B0; simpl in Hab; try discriminate; subst.
+      * pose proof (IHb sb id0 o cx Hb) as Fb. repeat hstep; finish_hit.
+      * pose proof (IHa sa id0 o cx Ha) as Fa. repeat hstep; finish_hit.
+      * pose proof (IHa sa id0 o cx Ha) as Fa. pose proof (IHb sb id0 o cx Hb) as Fb.
+        repeat hstep; finish_hit.
+Qed.
+
+Theorem leafev_hit2 : forall e st id o cx, wf2 e st ->
+  (snd (leafev e st id o cx) = true <-> In id (pending_ids e st)).
+Proof. exact hit_iff. Qed.
+
+(* OnceProofs' [leafev_hit_removes] ("after a hit that id is no longer running") does NOT carry over to Calc2:
+   repeat_effect_until / retry_when start a fresh instance of the same leaf inside the same call, and a
+   LeafR whose source is not found stays pending as a held completion. *)
+Example hit_may_restart :
+  let e := Un (URepeat [false]) (Leaf 4) in
+  let st := fst (fst (start e (root_env false) 0%nat)) in
+  NoDup (leaf_ids e) /\ pending_ids e st = [4%nat] /\
+  snd (leafev e st 4%nat (OVal 0%Z) 0%nat) = true /\
+  pending_ids e (fst (fst (fst (leafev e st 4%nat (OVal 0%Z) 0%nat)))) = [4%nat].
+Proof. vm_compute. repeat split; repeat constructor; simpl; intuition. Qed.
+
+Example hit_may_hold :
+  let e := LeafR 7 0 in
+  let st := fst (fst (start e (root_env false) 0%nat)) in
+  pending e st = [PLeaf 7] /\
+  pending e (fst (fst (fst (leafev e st 7%nat (OVal 1%Z) 0%nat)))) = [PHeld 7].
+Proof. vm_compute. split; reflexivity. Qed.
+
 Transparent conc_child_done un_result after_first after_second is_seq un_done seq_pass seq_final conc_reap
        finish_conc rep_done retry_a_done retry_b_done un_own un_nst un_env fired res_err dtor.
 Arguments good2 e r : simpl nomatch.
